@@ -81,12 +81,29 @@ class P:
                         ("a <<'E'\n$x `c`\nE\n", [("<<", "$x `c`\n", "E", True)]), ("a <<E\n$x\nE\n", [("<<", "$x\n", "E", False)])]:
             e = ";".join("|".join(hx(x) for x in (op, body, dline, "1" if q else "0")) for op, body, dline, q in hd)
             cases.append("%s\t%s" % (hx(src), e))
-        return [{"name": "heredocs", "harness": "heredoc", "driver": None, "cases": cases, "impl_ok": judge,
+        # the literal-body reader model (Lex/Heredoc.v) against the implementation: quoted delimiters
+        lit = []
+        lines_pool = ["", "a", "E", " E", "E ", "\tE", "EE", "x y", "$x", "`c`", "\\", "\t", "\tb", "é", "#c", "'", '"']
+        for _ in range(4000 if tier == "quick" else 60000):
+            delim = rnd.choice(["E", "EOF", "a b", "é"])
+            dash = rnd.random() < 0.4
+            lines = [rnd.choice(lines_pool) for _ in range(rnd.randint(0, 5))]
+            k = rnd.random()
+            if k < 0.8:
+                text = "".join(l + "\n" for l in lines) + ("\t" * rnd.randint(0, 2) if dash and rnd.random() < 0.5 else "") + delim + rnd.choice(["\n", "\n", "\nrest\n", ""])
+            else:
+                text = "".join(l + "\n" for l in lines)      # no delimiter: error
+            lit.append("%s\t%s\t%s" % ("1" if dash else "0", hx(delim), hx(text)))
+        return [{"name": "literal-reader-model", "harness": "hdoc", "driver": "hdoc", "cases": lit,
+                 "nontrivial": lambda c: len(c.split("\t")[2]) > 6, "distribution": {"cases": len(lit)}},
+                {"name": "heredocs", "harness": "heredoc", "driver": None, "cases": cases, "impl_ok": judge,
                  "nontrivial": lambda c: c.split("\t")[1] != "",
                  "distribution": {"cases": len(cases)}}]
 
     def describe(self, part, case):
         f = case.split("\t")
+        if part == "literal-reader-model":
+            return "here-document %s'%s' followed by %r" % ("<<-" if f[0] == "1" else "<<", unhx(f[1]).decode("utf-8", "replace"), unhx(f[2]).decode("utf-8", "replace"))
         exp = [tuple(unhx(x).decode("utf-8", "replace") for x in e.split("|")) for e in f[1].split(";")] if f[1] else []
         return "here-documents of %r expected %r" % (unhx(f[0]).decode("utf-8", "replace"), exp)
 
@@ -95,6 +112,15 @@ class P:
 
     def replay(self, payload, C):
         c = payload["case"]
+        if payload.get("part") == "literal-reader-model":
+            i = C.run_harness("hdoc", [c])[0]
+            m, _ = C.run_driver("hdoc", [c], [i])[0]
+            print("case :", c, "\nimpl :", i, "\nmodel:", m)
+            if i != m:
+                print("VIOLATION property=C08 replay=(replayed)")
+                return 1
+            print("replay: property holds on this case now")
+            return 0
         o = C.run_harness("heredoc", [c])[0]
         print("case :", self.describe(None, c))
         print("impl :", o[:400])
